@@ -254,7 +254,45 @@ axiom('naming', 'assumed', 'N5 names generated from the hints start / accept dif
 axiom('naming', 'assumed', 'N4 hint+index is injective in the index',
       ForAll([_p, _i, _j], Implies(hint_index_name(_p, _i) == hint_index_name(_p, _j), _i == _j)))
 
+# inverse of hint+index on its range (exists because of N4; a conservative Skolem extension of it), and the complement of the set of names
+# hint+k with k >= i: "Q - unnamed_from(hint, i)" is the set of generated names with index at least i that are taken in Q, the termination
+# measure of the loops that look for an unused name
+hint_index_of = Function('hint_index_of', Atom, Atom, Int)
+unnamed_from = Function('unnamed_from', Atom, Int, SetA)
+axiom('naming', 'assumed', 'N4b hint_index_of inverts hint+index (same content as N4)', ForAll([_p, _i], hint_index_of(_p, hint_index_name(_p, _i)) == _i))
+axiom('naming', 'def', 'unnamed_from-def', ForAll([_p, _i, _q], Select(unnamed_from(_p, _i), _q) == Not(And(hint_index_name(_p, hint_index_of(_p, _q)) == _q, hint_index_of(_p, _q) >= _i))))
 
+
+# the 26 capital letters (string.ascii_uppercase): as the list Python iterates over and as a set; the set has 26 elements (lemma upper-card of
+# theory `letters`, proved by a chain of 26 card-add steps over the distinct literals).  Built on first use, so that the 26 literals only
+# enter the obligations of functions that mention them
+_UPPER = {}
+def upper():
+    if not _UPPER:
+        import string as _string
+        from . import sets as _S0
+        arr = Const('ascii_uppercase_arr', z3.ArraySort(Int, Atom)); st = z3.K(Atom, False); chain = [st]
+        for i, ch in enumerate(_string.ascii_uppercase):
+            st = Store(st, lit(ch), True); chain.append(st)
+        # the list is an opaque array with 26 ground facts (a chain of stores would be rewritten into nested if-then-else and leave no usable trigger)
+        axiom('letters', 'def', 'ascii_uppercase', And([Select(arr, i) == lit(ch) for i, ch in enumerate(_string.ascii_uppercase)]))
+        _UPPER.update(list=mk_list(LIST(ATOM), z3.IntVal(26), arr), set=SV(SET(ATOM), st), chain=chain, chars=_string.ascii_uppercase)
+        axiom('letters', 'lemma', 'upper-card', And(_S0.fin(_UPPER['set']), _S0.card(_UPPER['set']).z == 26))
+    return _UPPER
+LAZY = {'letters': upper}
+@spec('upper_list')
+def s_upper_list(ev): return upper()['list']
+@spec('upper_letters')
+def s_upper_letters(ev): return upper()['set']
+
+
+prod_fst = Function('prod_fst', Atom, Atom); prod_snd = Function('prod_snd', Atom, Atom)      # the two labels the product exercise reads out of a state name "(p,q)"
+@spec('prod_fst')
+def s_prod_fst(ev, q): return SV(ATOM, prod_fst(q.z))
+@spec('prod_snd')
+def s_prod_snd(ev, q): return SV(ATOM, prod_snd(q.z))
+@spec('unnamed_from')
+def s_unnamed_from(ev, h, i): return SV(SET(ATOM), unnamed_from(h.z, i.z))
 @spec('name_of_set')
 def s_name_of_set(ev, s): return SV(ATOM, name_of_set(s.z))
 @spec('pair_name')
@@ -773,6 +811,59 @@ def EMPTY_ARR(vt):
 
 
 _der_axioms2()
+
+
+# ---------------------------------------------------------------------- theory cfgx: the two fixpoints of the Chomsky conversion (C08)
+# Null(G): the nullable symbols, least set N with  (every symbol of the right-hand side of R[t] in N)  =>  head of R[t] in N
+# UReach(G, A): the variables reachable from A by one or more unit rules X -> B with B in V (least set)
+Null = Function('Null', CFGs, SetA)
+UReach = Function('UReach', CFGs, Atom, SetA)
+
+
+def _rhs_all_in(G, t, X):
+    k = fresh_z('k', Int); var, ln, arr = rule_at(G, t)
+    return ForAll([k], Implies(And(0 <= k, k < ln), Select(X, Select(arr, k))))
+
+
+def _cfgx_axioms():
+    t = Const('t_', Int); A = Const('A_', Atom)
+    nR = _LR[2](rec_get(_Gsv, 'R').z); var, ln, arr = rule_at(_Gsv, t); V = rec_get(_Gsv, 'V').z
+    rt = Select(_LR[3](rec_get(_Gsv, 'R').z), t)
+    axiom('cfgx', 'lfp', 'Null-rule', ForAll([_Gg, t], Implies(And(0 <= t, t < nR, _rhs_all_in(_Gsv, t, Null(_Gg))), Select(Null(_Gg), var)), patterns=[z3.MultiPattern(Null(_Gg), rt)]))
+    axiom('cfgx', 'lfp', 'UReach-first', ForAll([_Gg, A, t], Implies(And(0 <= t, t < nR, var == A, ln == 1, Select(V, Select(arr, 0))), Select(UReach(_Gg, A), Select(arr, 0))),
+                                                patterns=[z3.MultiPattern(UReach(_Gg, A), rt)]))
+    axiom('cfgx', 'lfp', 'UReach-step', ForAll([_Gg, A, t], Implies(And(0 <= t, t < nR, ln == 1, Select(UReach(_Gg, A), var), Select(V, Select(arr, 0))), Select(UReach(_Gg, A), Select(arr, 0))),
+                                               patterns=[z3.MultiPattern(UReach(_Gg, A), rt)]))
+_cfgx_axioms()
+
+
+def Null_least(G, X):
+    """leastness instance: a set closed under the nullable rule contains Null(G)"""
+    t = fresh_z('t', Int); x = fresh_z('x', Atom)
+    nR = _LR[2](rec_get(G, 'R').z); var, ln, arr = rule_at(G, t)
+    closed = ForAll([t], Implies(And(0 <= t, t < nR, _rhs_all_in(G, t, X)), Select(X, var)))
+    return Implies(closed, ForAll([x], Implies(Select(Null(G.z), x), Select(X, x))))
+
+
+def UReach_least(G, A, X):
+    """leastness instance: a set that contains the targets of the unit rules of A and is closed under unit rules contains UReach(G, A)"""
+    t = fresh_z('t', Int); x = fresh_z('x', Atom)
+    nR = _LR[2](rec_get(G, 'R').z); var, ln, arr = rule_at(G, t); V = rec_get(G, 'V').z
+    first = ForAll([t], Implies(And(0 <= t, t < nR, var == A, ln == 1, Select(V, Select(arr, 0))), Select(X, Select(arr, 0))))
+    step = ForAll([t], Implies(And(0 <= t, t < nR, ln == 1, Select(X, var), Select(V, Select(arr, 0))), Select(X, Select(arr, 0))))
+    return Implies(And(first, step), ForAll([x], Implies(Select(UReach(G.z, A), x), Select(X, x))))
+
+
+@spec('Null')
+def s_Null(ev, G): return SV(SET(ATOM), Null(G.z))
+@spec('UReach')
+def s_UReach(ev, G, A): return SV(SET(ATOM), UReach(G.z, A.z))
+@spec('Null_least')
+def s_Null_least(ev, G, X): return SV(BOOL, Null_least(G, X.z))
+@spec('UReach_least')
+def s_UReach_least(ev, G, A, X): return SV(BOOL, UReach_least(G, A.z, X.z))
+
+
 cnf_b = Function('cnf', CFGs, BoolSort())          # the value CFG.is_chomsky() returns (assumed contract; the table specification below does not depend on it)
 @spec('cnf')
 def s_cnf(ev, G): return SV(BOOL, cnf_b(G.z))
